@@ -66,8 +66,8 @@ def check_python(report):
         if not base <= set(c):
             continue
         has = (f"{MC}.get('timeout')", True) in c
-        want = f"self._to_float({MC}['timeout'])" if has else "None"
-        okt = okt and ast.unparse(v.elts[1]) == want
+        want = (f"self._to_float({MC}['timeout'])", f"self._to_float({MC}.get('timeout'))") if has else ("None",)
+        okt = okt and ast.unparse(v.elts[1]) in want
     r.check(okt and seen_mc, p, fn.lineno, "timeout component", "timeout must be self._to_float(<entry>['timeout']) when the entry has a timeout, else None")
     # retry component
     R = f"{MC}['retryPolicy']"
@@ -189,7 +189,9 @@ def check_table(report, lib: Lib, tname, label, retry_cls, wrapper):
                     exs = [D(sk, a) for a in pred.args]
                     n_ex = sk.valuation.assigned.get("LOOP:" + M + ".retry.retryable_exceptions")
                     exp = "core_exceptions.{ELEM(" + M + ".retry.retryable_exceptions).__name__}"
-                    r.check(all(e == exp for e in exs) and (n_ex is None or len(exs) == n_ex), *w, f"predicate args {exs}",
+                    # the names may also be taken first and then iterated: retryable_exceptions|map(attribute='__name__')
+                    exp2 = "core_exceptions.{ELEM(" + M + ".retry.retryable_exceptions|map(attribute='__name__'))}"
+                    r.check(all(e in (exp, exp2) for e in exs) and (n_ex is None or len(exs) == n_ex or exs and exs[0] == exp2), *w, f"predicate args {exs}",
                             "predicate must list core_exceptions.<name> for every retryable exception")
                     # the loop over exceptions must be unfiltered
                     for a in pred.args:
